@@ -52,6 +52,11 @@ LINES = [
     "password apply",
     "",
     "\t",
+    # inner whitespace runs on lines that only some stages touch
+    " ip  address\t10.1.2.3   255.255.255.0",
+    "router   bgp\t65001",
+    "hostname   seattle-edge \t x",
+    "  description   nothing   to   see\there",
 ]
 
 
@@ -153,6 +158,15 @@ def stage_direct(kind, opt, text, state):
         return None
 
 
+def _nw(text):
+    """Inner whitespace runs collapsed (leading / trailing kept): the stage-vs-component comparison is
+    about what a stage does to the tokens, not about spacing (C12's subject)."""
+    out = []
+    for ln in text.split("\n"):
+        out.append(ln[: len(ln) - len(ln.lstrip())] + " ".join(ln.split()) + ln[len(ln.rstrip()):] if ln.strip() else ln)
+    return "\n".join(out)
+
+
 def run(an, text):
     out = io.StringIO()
     with seams.capture_logs():
@@ -192,8 +206,8 @@ class ComposePart(Part):
                             direct = stage_direct("pwd", opt, chain, {})
                         if direct is None:
                             res.count("direct_seam_lost")
-                        elif direct != nxt:
-                            dl, nl = direct.split("\n"), nxt.split("\n")
+                        elif _nw(direct) != _nw(nxt):
+                            dl, nl = _nw(direct).split("\n"), _nw(nxt).split("\n")
                             i = [k for k in range(min(len(dl), len(nl))) if dl[k] != nl[k]][0]
                             res.violation("pwd-stage-differs-from-library-component",
                                           "options %r: single-feature anonymizer gives %r, the component alone %r" % (
@@ -203,8 +217,8 @@ class ComposePart(Part):
                     if ip:
                         nxt = run(fa(opt, ip=True, undo=undo), chain)
                         direct = ip_stage_direct(opt, undo, chain)
-                        if direct != nxt:
-                            dl, nl = direct.split("\n"), nxt.split("\n")
+                        if _nw(direct) != _nw(nxt):
+                            dl, nl = _nw(direct).split("\n"), _nw(nxt).split("\n")
                             i = [k for k in range(min(len(dl), len(nl))) if dl[k] != nl[k]][0]
                             res.violation("ip-stage-differs-from-ipv6-then-ipv4|" + ("undo" if undo else "anonymize"),
                                           "options %r: IP-only anonymizer gives %r, IPv6 pass then IPv4 pass gives %r" % (
@@ -217,8 +231,8 @@ class ComposePart(Part):
                             direct = stage_direct("word", opt, chain, {})
                         if direct is None:
                             res.count("direct_seam_lost")
-                        elif direct != nxt:
-                            dl, nl = direct.split("\n"), nxt.split("\n")
+                        elif _nw(direct) != _nw(nxt):
+                            dl, nl = _nw(direct).split("\n"), _nw(nxt).split("\n")
                             i = [k for k in range(min(len(dl), len(nl))) if dl[k] != nl[k]][0]
                             res.violation("word-stage-differs-from-library-component",
                                           "options %r: single-feature anonymizer gives %r, the component alone %r" % (
@@ -231,8 +245,8 @@ class ComposePart(Part):
                             direct = stage_direct("as", opt, chain, {})
                         if direct is None:
                             res.count("direct_seam_lost")
-                        elif direct != nxt:
-                            dl, nl = direct.split("\n"), nxt.split("\n")
+                        elif _nw(direct) != _nw(nxt):
+                            dl, nl = _nw(direct).split("\n"), _nw(nxt).split("\n")
                             i = [k for k in range(min(len(dl), len(nl))) if dl[k] != nl[k]][0]
                             res.violation("as-stage-differs-from-library-component",
                                           "options %r: single-feature anonymizer gives %r, the component alone %r" % (
